@@ -297,6 +297,12 @@ class BehavioralRTLIRTypeCheckVisitorL2( BehavioralRTLIRTypeCheckVisitorL1 ):
         op = opmap[node.op.__class__]
         operand = node.operand._value
         node._value = eval(f"{op}{operand}")
+        # A negative constant needs the two's complement width of its value,
+        # which may be one bit more than the width of the operand (-129)
+        if not node._is_explicit and node._value < 0:
+          nbits = s._get_nbits_from_value( node._value )
+          if nbits > node.Type.get_dtype().get_length():
+            node.Type = s.rtlir_getter.get_rtlir( node._value )
       except:
         pass
 
